@@ -83,14 +83,14 @@ func signRef(priv []byte, mode int, ctx, msg []byte, z []byte) (R, S verif.BV) {
 	return
 }
 
-//verif:ob prop=C02,C18 name=Sign_RFC8032 mode=bv tags=purego use=gapi split=mode:0..2;nm:0..2;nc:1..2+255;rnd:0..1 tsplit=mode:0..2;nm:0..3;nc:1..3+254..255;rnd:0..1 sharedro=1
+//verif:ob prop=C02,C18 name=Sign_RFC8032 mode=bv tags=purego use=gapi split=mode:0..2;nm:0..2;nc:0..2+128+255;rnd:0..1 tsplit=mode:0..2;nm:0..3;nc:0..3+127..129+254..255;rnd:0..1 sharedro=1
 func vh_C02_sign() {
 	mode, nm, nc, rnd := verif.Case("mode"), verif.Case("nm"), verif.Case("nc"), verif.Case("rnd")
 	if mode == 2 {
 		nm = 64
 	}
-	if mode == 0 {
-		nc = 0
+	if (mode == 0) != (nc == 0) && mode != 2 {
+		return // pure Ed25519 has no context, Ed25519ctx needs one; Ed25519ph takes any context incl. the empty one
 	}
 	priv := make([]byte, 64)
 	verif.AnyBytes("priv", priv)
